@@ -341,6 +341,11 @@ func (e *Engine) classify(fn *ssa.Function) string {
 			pkgPath = n.Obj().Pkg().Path()
 		}
 	}
+	for _, p := range e.interpret {
+		if strings.HasPrefix(key, p) {
+			return "" // this entry wants the real code, not the observability no-op
+		}
+	}
 	for _, p := range noopPkgs {
 		if pkgPath == p || strings.HasPrefix(pkgPath, p+"/") {
 			return "noop"
